@@ -184,14 +184,50 @@ def query(req):
     return reply
 
 
-if __name__ == "__main__":
-    req = json.load(open(sys.argv[1]))
-    # hermetic: no user/global configuration, no inherited BOB_ variables
+def hermetic(req):
+    # no user/global configuration, no inherited BOB_ variables
     os.environ["HOME"] = req.get("home", "/nonexistent")
     os.environ["XDG_CONFIG_HOME"] = os.path.join(os.environ["HOME"], ".config")
     for k in list(os.environ):
         if k.startswith("BOB_") and k != "BOB_VERIF_REPO":
             del os.environ[k]
+
+
+def one(req, reply_path):
+    hermetic(req)
     rep = query(req)
-    with open(sys.argv[2], "w") as f:
+    with open(reply_path, "w") as f:
         json.dump(rep, f, sort_keys=True)
+
+
+def serve():
+    """zygote: the Bob modules are imported once; every request is answered by a freshly forked child, i.e. by a
+    process in which no RecipeSet was ever created (same state as a new `bob` process after its imports)."""
+    import bob.input  # noqa
+    import bob.pathspec  # noqa
+    for line in sys.stdin:
+        line = line.strip()
+        if not line:
+            continue
+        msg = json.loads(line)
+        pid = os.fork()
+        if pid == 0:
+            code = 0
+            try:
+                devnull = os.open(os.devnull, os.O_WRONLY)
+                os.dup2(devnull, 1)
+                os.dup2(devnull, 2)
+                one(msg["req"], msg["reply"])
+            except BaseException:  # noqa
+                code = 3
+            os._exit(code)
+        _, status = os.waitpid(pid, 0)
+        sys.stdout.write("%d\n" % status)
+        sys.stdout.flush()
+
+
+if __name__ == "__main__":
+    if sys.argv[1] == "--serve":
+        serve()
+    else:
+        one(json.load(open(sys.argv[1])), os.path.abspath(sys.argv[2]))
